@@ -271,6 +271,54 @@ def lookalike_job(arg):
     return rep
 
 
+def self_accept_job(arg):
+    """A library package that accepts itself when it is imported (dds.accept_module in its __init__), first imported in
+    the process by a function-local import of the pipeline: its functions and variables are tracked from the first
+    evaluation on, in every fresh process."""
+    idx, edit = arg
+    rep = core.Report("C14")
+    rep.evaluations = 1
+    L, P = "selflib%d" % idx, "selfpipe%d" % idx
+
+    def files(const, var):
+        return {
+            L + "/__init__.py": "import dds\n\ndds.accept_module(%r)\nfrom . import feat\n" % L,
+            L + "/feat.py": "from vp import vlog\nLIMIT = %d\n\n\ndef scale(x):\n    vlog.hit('scale')\n    return ('scale', x, %d, LIMIT)\n" % (var, const),
+            P + "/__init__.py": "# pkg\n",
+            P + "/top.py": "import dds\nfrom vp import vlog\n\n\ndef K():\n    vlog.hit('K')\n    import %s\n    return ('K', %s.feat.scale(3))\n\n\ndef main():\n    return ('main', dds.keep('/c14/self', K))\n" % (L, L),
+        }
+
+    states = [(7, 3), (17, 3) if edit == "const" else (7, 13), (7, 3)]
+    case = {"self_accept": True, "idx": idx, "edit": edit}
+    with core.Scratch("vp_c14a_") as td:
+        root = os.path.join(td, "code")
+        os.makedirs(root)
+        outs = []
+        for st in states:
+            seg = {"mode": "impl", "root": root, "accept": [P], "store": {"kind": "local", "dir": os.path.join(td, "store")},
+                   "steps": [{"write": files(*st), "how": "import", "modules": [P + ".top"], "entry": {"style": "eval", "module": P + ".top", "func": "main", "args_src": "()"}}]}
+            o = core.fork_call(run_segment, seg, timeout=300)
+            if isinstance(o, core.JobFailed):
+                rep.inconclusive.append("worker: %r" % (o,))
+                return rep
+            outs.append(o["steps"][0])
+    for x, st in zip(outs, states):
+        if "setup_error" in x:
+            rep.inconclusive.append(x["setup_error"][-300:])
+            return rep
+        rep.count("self_accepting_package_evaluations")
+        want = ("main", ("K", ("scale", 3, st[0], st[1])))
+        if x["result"][0] != "ok":
+            rep.violate("package that accepts itself on import: evaluation raised %s(%s)" % (x["result"][1], x["result"][2][:200]), case, mechanism="self-accepting-package")
+            return rep
+        if pickle.loads(x["result"][1]) != want:
+            rep.violate("a package that accepts itself on import and is first imported inside the pipeline: after an edit of its %s the evaluation returned %s, plain execution gives %r" % (edit, x["result"][2][:120], want), case,
+                        mechanism="self-accepting-package")
+            return rep
+    rep.nontriv(("c14self", edit))
+    return rep
+
+
 def spellings_job(arg):
     """One variable of an accepted nested module read through several import spellings in one function body: an edit of
     the variable changes the signature (and the value) whatever the number of spellings."""
@@ -443,8 +491,12 @@ def run(tier, seed):
                 idx += 1
                 jobs.append(("look", (idx, sep, order, side)))
 
+    for edit in ("const", "var"):
+        idx += 1
+        jobs.append(("self", (idx, edit)))
+
     def dispatch(j):
-        return {"case": case_job, "refused": refused_job, "late": late_accept_job, "order": accept_order_job, "spell": spellings_job, "look": lookalike_job}[j[0]](j[1])
+        return {"case": case_job, "refused": refused_job, "late": late_accept_job, "order": accept_order_job, "spell": spellings_job, "look": lookalike_job, "self": self_accept_job}[j[0]](j[1])
 
     results = core.fork_map(dispatch, jobs, timeout=900)
     for j, r in zip(jobs, results):
@@ -465,7 +517,9 @@ def run(tier, seed):
 def replay(payload):
     rep = core.Report("C14")
     c = payload["case"]
-    if c.get("lookalike"):
+    if c.get("self_accept"):
+        rep.merge(self_accept_job((c["idx"], c["edit"])))
+    elif c.get("lookalike"):
         rep.merge(lookalike_job((c["idx"], c["sep"], c["order"], c["edit"])))
     elif c.get("spellings"):
         rep.merge(spellings_job((c["idx"], c["depth"], c["nspell"])))
